@@ -585,3 +585,92 @@ Proof.
   split; [|split; [vm_compute; reflexivity|split; [exact QNext_list|exact QNext_pos]]].
   apply (inert_reach_list 0 [] [] [] 0 ix_acts ix_actions_ok ix_nec).
 Qed.
+
+(* ---------------------------------------------------------------------------------------------
+   Fourth round: "runs next" on the priority loop with starvation boosting ENABLED
+   (Sched/InterruptNextW.v, Sched/InterruptNextBoost.v).
+
+   Additional vocabulary:
+     cls_ok e          the queue entry e is positional with boost 0 (class 0) or regular (class 1)
+     qok_boostc r      r is a PosPriorityQueue whose array satisfies the PriorityQueue invariant
+                       (qok_boost: heap layout, distinct sequence numbers) AND every entry is cls_ok
+     QNextW qok        QNext with the first clause weakened: after rq_insert_pos r 0 h the handle h is
+                       the head of the run order and the REST is a permutation of the old run order
+                       (QNext: the old order itself); the other two clauses are those of QNext *)
+From Asynkit Require Import Queue.PQ Queue.PosProofs Queue.Exec Sched.PartitionRun Sched.InterruptNextW Sched.InterruptNextBoost.
+
+(* C15_QNext_boost.  QNext itself is FALSE for the boosted queue (for qok_boost and for qok_boostc):
+   every insert - also the insert at position 0 - may run the maintenance pass, which boosts
+   straggling regular entries, so the rest of the run order can change (witness bx_r0: run order
+   [2; 1] becomes [99; 1; 2]).  What "position 0 is the head of the run order" needs holds for
+   every boost factor and all draws: qok_boostc is a QSpec instance (hence part of C09's invariant
+   in every reachable state of the boosted loop), and it satisfies QNextW: the entry inserted at
+   position 0 is class 0 with a base below every queued positional entry, maintenance never
+   touches class 0 and never changes a class, so it is the strict minimum before and after any
+   maintenance pass - popleft returns it, and a later call_soon entry (class 1) stays behind it *)
+Theorem C15_QNext_boost :
+  QSpec qok_boostc /\ QNextW qok_boostc /\
+  (forall qok, QNext qok -> QNextW qok) /\
+  (~ QNext qok_boostc /\ ~ QNext qok_boost) /\
+  (rq_items bx_r0 = [2; 1] /\ rq_items (rq_insert_pos bx_r0 0 99) = [99; 1; 2] /\ qok_boostc bx_r0) /\
+  (forall r, qok_boostc r <->
+     exists p, r = RPos p /\ PQProofs.Inv HPV (pq_ p) /\ Forall cls_ok (arr (pq_ p))) /\
+  (forall factor draws lks cds nev l,
+     let s0 := init_st true factor draws lks cds nev in
+     actions_ok s0 l -> Inv09 qok_boostc (fold_left do_action l s0)).
+Proof.
+  split; [exact QSpec_boostc|]. split; [exact QNextW_boostc|]. split; [exact QNext_QNextW|].
+  split; [exact QNext_boost_strict_false|].
+  split; [destruct bx_orders; split; [assumption|split; [assumption|exact bx_r0_ok]]|].
+  split; [|exact Inv09_prio_boostc].
+  intros [l|p]; simpl; split.
+  - intros [].
+  - intros (p & E & _). discriminate.
+  - intros [A B]. exists p. auto.
+  - intros (p0 & E & A & B). inversion E; subst. auto.
+Qed.
+Print Assumptions C15_QNext_boost.
+
+(* C15_interrupt_next_any_queue: C15_interrupt_next for every ready queue with QSpec + QNextW (all
+   three: list, priority, boosted priority).  The only difference to C15_interrupt_next: the run
+   order behind the target's new handle is l, a permutation of rq_items r' *)
+Theorem C15_interrupt_next_any_queue :
+  forall qok, QSpec qok -> QNextW qok -> forall c s t t' e s',
+  InvC qok c s -> lib_call t (OTaskInterrupt t' e) s = (s', LSusp YNone [InSleep0]) ->
+  let hn := length (handles s) in
+  exists s1 v r' r'' l,
+    task_throw s t' e = (s1, RVal v) /\
+    s' = s1 <| ready := rq_insert_pos r' 0 hn |> /\ qok r' /\
+    Permutation (rq_items (ready s1)) (hn :: rq_items r') /\
+    InvC qok c s' /\
+    geth s' hn = mkH (HStep t' (Some e)) false /\
+    rq_items (ready s') = hn :: l /\ Permutation l (rq_items r') /\
+    (forall h, In h l -> task_key s' t' h = false) /\
+    rq_popleft (ready s') = Some (hn, r'') /\ rq_items r'' = l /\
+    run_one s' = step_task t' (Some e) (s' <| ready := r'' |>) /\
+    tdone s' t' = false /\ hcnt s' t' = 1 /\
+    (c = Some t -> tdone s' t = false -> hcnt s' t = 0).
+Proof. exact interrupt_nextW. Qed.
+Print Assumptions C15_interrupt_next_any_queue.
+
+(* C15_interrupt_next_prio_boost: the statement of C15_interrupt_next_prio, on the priority loop
+   with boosting enabled (any factor, any draws): after an accepted `await task_interrupt(t', e)`
+   the target's new handle hn = HStep t' (Some e) is the head of the run order, no other queued
+   handle belongs to t', popleft returns hn, and the next loop step is the target's step with e *)
+Theorem C15_interrupt_next_prio_boost :
+  forall c s t t' e s',
+  InvC qok_boostc c s -> lib_call t (OTaskInterrupt t' e) s = (s', LSusp YNone [InSleep0]) ->
+  let hn := length (handles s) in
+  exists l' r'',
+    rq_items (ready s') = hn :: l' /\ geth s' hn = mkH (HStep t' (Some e)) false /\
+    (forall h, In h l' -> task_key s' t' h = false) /\
+    rq_popleft (ready s') = Some (hn, r'') /\ rq_items r'' = l' /\
+    run_one s' = step_task t' (Some e) (s' <| ready := r'' |>) /\ tdone s' t' = false /\
+    InvC qok_boostc c s'.
+Proof.
+  intros c s t t' e s' I L hn.
+  destruct (interrupt_nextW qok_boostc QSpec_boostc QNextW_boostc c s t t' e s' I L)
+    as (s1 & v & r' & r'' & l & _ & _ & _ & _ & I' & G & It & _ & Z & Pp & It' & R & Hd & _).
+  exists l, r''. repeat (split; [assumption|]). assumption.
+Qed.
+Print Assumptions C15_interrupt_next_prio_boost.
